@@ -47,7 +47,7 @@ pub struct Plan {
 
 const CCYS: &[&str] = &[
     "usd", "eur", "gbp", "jpy", "nok", "sek", "cad", "aud", "chf", "nzd", "brl", "inr", "cny",
-    "mxn", "zar", "sgd",
+    "mxn", "zar", "sgd", "hkd", "krw", "pln", "czk", "huf", "try", "dkk", "thb", "idr", "clp",
 ];
 
 // ------------------------------------------------------------------ generation
@@ -61,10 +61,12 @@ fn gen_quote_num(rng: &mut Rng) -> Num {
 pub fn generate(rng: &mut Rng, tier: Tier) -> Plan {
     let nmax = if tier == Tier::Quick { 8 } else { 12 };
     // bias towards small markets: many short diverse runs
-    let n = if rng.chance(0.5) {
-        rng.usize_in(2, 4)
-    } else {
-        rng.usize_in(2, nmax)
+    let n = match rng.below(100) {
+        0..=49 => rng.usize_in(2, 4),
+        50..=97 => rng.usize_in(2, nmax),
+        // occasionally beyond the 2..12 of the property's quantifier: the code accepts any
+        // size, and size thresholds are a classic place for a slip
+        _ => rng.usize_in(13, if tier == Tier::Quick { 18 } else { 24 }),
     };
     let mut names: Vec<&str> = CCYS.to_vec();
     rng.shuffle(&mut names);
@@ -122,14 +124,29 @@ pub fn generate(rng: &mut Rng, tier: Tier) -> Plan {
         }
     };
     let gen_valid_items = |rng: &mut Rng, cur: &Vec<Quote>, float_only: bool| -> Vec<Quote> {
-        let k = rng.usize_in(1, cur.len().min(3));
+        // mode 0: a few quotes move; 1: every quote is re-marked at EXACTLY its current
+        // level but (mostly) as a different kind of number; 2: a few, some at the same level
+        let mode = match rng.below(20) {
+            0 | 1 => 1,
+            2..=5 => 2,
+            _ => 0,
+        };
+        let k = if mode == 1 {
+            cur.len()
+        } else {
+            rng.usize_in(1, cur.len().min(3))
+        };
         let mut idx: Vec<usize> = (0..cur.len()).collect();
         rng.shuffle(&mut idx);
         idx.truncate(k);
         idx.into_iter()
             .map(|i| {
                 let q = &cur[i];
-                let num = if float_only || rng.chance(0.6) {
+                let same_level = !float_only && (mode == 1 || (mode == 2 && rng.chance(0.6)));
+                let num = if same_level {
+                    // same value to the bit, different variables / kind
+                    gen_quote_num(rng).with_value(q.num.value())
+                } else if float_only || rng.chance(0.6) {
                     // same kind, new value
                     q.num.with_value(rng.log_uniform(1e-4, 1e4))
                 } else {
@@ -219,6 +236,39 @@ pub fn generate(rng: &mut Rng, tier: Tier) -> Plan {
     // NOTE: with a replica the generator's `cur` follows the primary only approximately;
     // expectations are never taken from the generator, always from the model at execution.
     for _ in 0..nsteps {
+        if rng.chance(0.06) {
+            // roll the whole market to one new settlement date (or date an undated market,
+            // or undate a dated one): every pair re-quoted, consistent, hence acceptable
+            let new_settle = match cur[0].settle {
+                Some(d) => {
+                    if rng.chance(0.8) {
+                        Some(d + rng.i64_in(1, 40))
+                    } else {
+                        None
+                    }
+                }
+                None => Some(rng.i64_in(10957, 22000)),
+            };
+            let items: Vec<Quote> = cur
+                .iter()
+                .map(|q| Quote {
+                    lhs: q.lhs.clone(),
+                    rhs: q.rhs.clone(),
+                    num: if rng.chance(0.5) {
+                        q.num.clone()
+                    } else {
+                        q.num.with_value(rng.log_uniform(1e-4, 1e4))
+                    },
+                    settle: new_settle,
+                })
+                .collect();
+            let t = target(rng, forked);
+            if t == 0 {
+                apply(&mut cur, &items);
+            }
+            steps.push(Step::Update { target: t, items });
+            continue;
+        }
         match rng.weighted(&[40, 25, 12, 10, if forked { 0 } else { 6 }]) {
             0 => {
                 let items = gen_valid_items(rng, &cur, float_only);
